@@ -428,7 +428,7 @@ func (r *runner) step(op Op) bool {
 			id, _ := respID(x.S.Tx)
 			rr = append(rr, map[string]any{"node": x.S.Node, "req": int(id), "hash": shash(x.S.Tx), "ok": x.Err == nil, "err": errClass(x.Err),
 				"pending": x.Pending, "conflict": x.Conflict, "h": int(x.H), "vub": int(x.S.Tx.ValidUntilBlock), "bh": x.S.BH,
-				"keys": w.view(x.S.Tx).Signers, "desig": w.FactsOf(w.P).Desig, "fast": w.Reqs[id] != nil && fast(w.Reqs[id].Spec.Cls)})
+				"keys": w.view(x.S.Tx).Signers, "desig": x.Desig, "fast": w.Reqs[id] != nil && fast(w.Reqs[id].Spec.Cls)})
 			r.res.Count(map[string]any{"k": "relay", "ok": x.Err == nil, "pending": x.Pending, "conflict": x.Conflict, "late": x.S.Tx.ValidUntilBlock <= x.H})
 		}
 		ii := []any{}
@@ -453,8 +453,12 @@ func (r *runner) step(op Op) bool {
 		if nd == nil || nd.H >= len(w.blocks) {
 			return false
 		}
+		before := fmt.Sprint(w.FactsOf(nd.BC).Desig)
 		err := w.Deliver(nd)
 		ev := map[string]any{"event": "deliver", "node": nd.Idx, "h": nd.H, "stored": err == nil, "cfg": nd.Idx % 4}
+		if fmt.Sprint(w.FactsOf(nd.BC).Desig) != before {
+			ev["stale"] = true // the block changes the designation: what the service built before is for the old set
+		}
 		if err != nil {
 			ev["h"] = nd.H + 1
 			ev["err"] = err.Error()
